@@ -5,12 +5,14 @@ From Coq Require Import List NArith.
 From Coq.Strings Require Import Byte.
 From EV Require Import Base.Bytes Base.Sha256 Extract.RunUtil.
 From EV Require Extract.RunC18.
+From EV Require Extract.RunC14.
 Import ListNotations.
 
 Definition run_line (line : bytes) : bytes :=
   match words line with
   | k :: args =>
       if bytes_eqb k "C18"%lb then RunC18.run args
+      else if bytes_eqb k "C14"%lb then RunC14.run args
       else if bytes_eqb k "sha256"%lb then match args with [h] => match hexarg h with Some b => hex_of_bytes (sha256 b) | None => err "hex" end | _ => err "args" end
       else err "kind"
   | [] => err "empty" end.
